@@ -132,6 +132,25 @@ def step (legacy : Bool) (s : State) : Op → State × Obs
   | .lookupPid a => (s, .foundPid (if s.pids.contains a then some a else none))
   | .waitRet a => (s, if statusOf s a = stopped then .ok else .bad)
 
+/-- `PidLifecycleEvent`s broadcast to the `pid_registry::monitor` listeners by one atomic
+region (`true` = `Spawn`, `false` = `Terminate`, with the actor): `register_pid` notifies after a
+successful insert, `unregister_pid` after a successful remove; nothing else does. In particular
+a registration that answers `AlreadyRegistered` — and one by a non-fresh id — emits nothing: the
+rejected cell never reaches the pid table. -/
+def pidEvents (s : State) : Op → List (Bool × Nat)
+  | .register a n => if fresh s a && (whereIs s n).isNone then [(true, a)] else []
+  | .create a => if fresh s a then [(true, a)] else []
+  | .unregPid a =>
+    match getA s a with
+    | some x => if x.pc = 1 ∧ x.remote = false ∧ a ∈ s.pids then [(false, a)] else []
+    | none => []
+  | _ => []
+
+/-- events of a whole op sequence, in order -/
+def runEvents (legacy : Bool) (s : State) : List Op → List (Bool × Nat)
+  | [] => []
+  | op :: ops => pidEvents s op ++ runEvents legacy (step legacy s op).1 ops
+
 def run (legacy : Bool) (s : State) : List Op → State
   | [] => s
   | op :: ops => run legacy (step legacy s op).1 ops
@@ -197,6 +216,9 @@ structure View where
   names : List (Nat × Nat)
   pids : Option (List Nat)       -- `none` when the build has no pid table
   actors : List VActor
+  /-- pid lifecycle events a `pid_registry::monitor` listener received since the previous view
+  (`none` when nobody listens); actor `999` = a cell the harness never got hold of -/
+  evs : Option (List (Bool × Nat)) := none
   deriving Repr
 
 def view (s : State) : View :=
@@ -232,15 +254,21 @@ def okPids (v : View) : Bool :=
     (ps.all fun a => v.actors.any fun x => x.id == a && !x.remote && decide (x.status < stopped)) &&
     (v.actors.all fun x => x.remote || decide (x.status ≥ stopping) || ps.contains x.id)
 
+/-- every pid lifecycle event concerns a local actor that was really created -/
+def okPidEvents (v : View) : Bool :=
+  (v.evs.getD []).all fun e => v.actors.any fun x => x.id == e.2 && !x.remote
+
 /-- The failing clauses (names kept short: they are the keys of `known_findings.txt`). -/
 def failing (v : View) : List String :=
   (if okUnique v then [] else ["two-entries-for-one-name"]) ++
   (if okHolder v then [] else ["where-is-returns-stopped-or-foreign-actor"]) ++
   (if okVisible v then [] else ["live-actor-lost-its-name"]) ++
   (if okOneLive v then [] else ["two-live-actors-one-name"]) ++
-  (if okPids v then [] else ["pid-table"])
+  (if okPids v then [] else ["pid-table"]) ++
+  (if okPidEvents v then [] else ["pid-event-for-a-rejected-or-remote-cell"])
 
-def ok (v : View) : Bool := okUnique v && okHolder v && okVisible v && okOneLive v && okPids v
+def ok (v : View) : Bool :=
+  okUnique v && okHolder v && okVisible v && okOneLive v && okPids v && okPidEvents v
 
 /-- Transition clause (atomic `entry`): a registration succeeds iff the name was vacant in
 the table seen just before it, and a failed one changes nothing. `before`/`after` are the
@@ -249,7 +277,9 @@ def okRegister (before after : View) (a n : Nat) (res : Obs) : Bool :=
   match res with
   | .ok => !(before.names.any (·.1 == n)) && after.names.contains (n, a)
   | .dup => before.names.any (·.1 == n) && decide (after.names = before.names)
-              && decide (after.actors = before.actors)
+              && decide (after.actors = before.actors) && decide (after.pids = before.pids)
+              && (after.evs.getD []).isEmpty        -- no `Spawn`/`Terminate` for the rejected cell
   | _ => true
+
 
 end Registry
